@@ -315,6 +315,27 @@ func (x *Exec) doReturn(st *State, vals []Val, pos token.Pos) {
 	env := &CEnv{x: x, st: st, old: x.entry, lookup: look, pkg: x.fi.Pkg.Types, oldAlloc: x.entry0Alloc(),
 		oldLook: func(name string) (Val, bool) { v, ok := x.entryVals[name]; return v, ok }}
 	rn := x.retOrdinal(pos)
+	// witnesses: ghost results defined at particular returns
+	wit := map[string]Val{}
+	for _, w := range x.fc.Witnesses {
+		if _, done := wit[w.Name]; done && w.Anchor != fmt.Sprintf("ret%d", rn) {
+			continue
+		}
+		if w.Anchor == fmt.Sprintf("ret%d", rn) {
+			wenv := x.invEnv(st, pos, nil)
+			wit[w.Name] = wenv.eval(w.E)
+		} else if _, done := wit[w.Name]; !done {
+			wit[w.Name] = Val{T: x.sym.Fresh("wit_"+w.Name, SInt), Ty: tyInt}
+		}
+	}
+	baseLook := look
+	look = func(name string) (Val, bool) {
+		if v, ok := wit[name]; ok {
+			return v, true
+		}
+		return baseLook(name)
+	}
+	env.lookup = look
 	for i, ck := range x.fc.Checks {
 		if ck.Anchor != fmt.Sprintf("ret%d", rn) {
 			continue
@@ -427,6 +448,9 @@ func (x *Exec) recordWrite(st *State, hn string, key *Term, newCell, oldCell *Te
 	}
 	for _, sc := range x.scopes {
 		alts := []*Term{Ge(key, x.entry0Alloc())}
+		if strings.HasPrefix(hn, "H_") {
+			alts = append(alts, Eq(key, IntLit(0))) // region 0 is the nil slice: it has no cells
+		}
 		for _, t := range sc.targets {
 			if t.heap != hn || t.global != nil {
 				continue
